@@ -158,6 +158,28 @@ CLAIMED.update({
     },
 })
 
+CLAIMED.update({
+    "C04": {
+        "text": "Four structural necessary conditions of query = scan, explicitly partial: every query loop (8 sync/async instances + CSI "
+                "FilterByRegion) returns a record only on the true edge of its intersects(..)? test; the five indexers build each chunk from a "
+                "position before and a position after the same record read (def-use); one span definition shared by indexer and filter; "
+                "add_record rejects unsorted input; binned-index min_offset is a minimum over several bins. The heart of C04 — bin assignment, "
+                "chunk merging and pruning for every layout x region — is coordinate arithmetic and is NOT decided.",
+        "note": "weak claim by design; a genuine completeness defect in the CSI min_offset (found by reading, not by a rule) was repaired (fix: 42bd27d) and R5 pins its necessary condition",
+        "technique": "static analysis: edge dominance of the filter test over record-returning exits, def-use ordering of chunk bounds, trait impl table (MIR/HIR)",
+        "design_ref": "§5 C04",
+    },
+    "C13": {
+        "text": "Structural necessary conditions for 'a cut file never reads as clean and complete': EOF-vs-partial guard of the BAM/BCF record "
+                "readers, read_exact for bodies, CRC/ISIZE/frame-size integrity guards of BGZF and CRAM on every success exit, CRAM Ok(0) only on "
+                "the is_eof edge dominated by the header CRC comparison, index readers without raw read() and with try_from-converted counts, "
+                "no untabled error-to-success conversion. Prefix equality of what was yielded is not decided.",
+        "note": "the never-panics clause is C15's inventory; a BGZF file cut at a block boundary reads as a shorter clean stream by format design",
+        "technique": "static analysis: guard dominance, call-site classification, Err-edge reachability (MIR)",
+        "design_ref": "§5 C13",
+    },
+})
+
 NOT_APPLICABLE = {
     "C08": "every clause is numeric (rANS/arith/fqzcomp state arithmetic, ITF8/LTF8 bit arithmetic): correct and off-by-one "
            "implementations have the same code shape, so no sound static rule short of a solver/proof decides it; the "
